@@ -195,8 +195,7 @@ def validate_registry_header(
 def check_crit_header(header: Header) -> None:
     # check crit header
     if "crit" in header:
-        if not isinstance(header["crit"], list):
-            raise ValueError('"crit" in header must be a list[str]')
+        is_list_str(header["crit"])
         for k in header["crit"]:
             if k not in header:
                 raise ValueError(f'"{k}" is a critical header')
